@@ -19,8 +19,15 @@ COMPONENTS_LP = {
              'wall clock: simulated datetime in matchingproblems.solver.solver']}
 
 ASSUME_LP = [
-    'instances are bounded (<= 5 students, <= 4 projects, lists <= 3) so the '
-    'reference model can enumerate every assignment',
+    'instances are bounded so that the reference model can enumerate every '
+    'assignment (at most 4096: up to 5 students x 4 projects with lists <= 3, '
+    'or up to 12 agents on a side with lists <= 1-2); the real lane at scale '
+    '(10-24 students, about 1 % of the runs) uses only oracles that need no '
+    'enumeration',
+    'real CBC 2.10.3 occasionally reports Optimal with a point that violates '
+    'the program (DESIGN.md note N2): whenever real CBC is consulted its '
+    'answer is validated against the program; such runs are counted under '
+    'faults_injected as real-cbc-infeasible-answer and not judged',
     'a correct MILP back end reports integer variables with exactly integral '
     'values and may return any optimal solution; the stand-in enumerates the '
     'optimal set exactly and is cross-checked against real CBC in every batch',
